@@ -19,7 +19,16 @@ def sym_float(x=0.0):
         return SymReal(x.g, z3.If(x.e, z3.RealVal(1), z3.RealVal(0)))
     if isinstance(x, SymReal):
         return x
+    if isinstance(x, str) and CURRENT["g"] is not None:
+        # text written earlier by "%.2f" % <symbolic> is read back as the same symbolic value
+        try:
+            return CURRENT["g"].unsentinel_real(x)
+        except ValueError:
+            pass
     return builtins.float(x)
+
+
+CURRENT = {"g": None}   # engine of the running harness, for parsers of sentinel text (set by the harness)
 
 
 class _IntMeta(type):
@@ -37,6 +46,8 @@ class sym_int(metaclass=_IntMeta):
             return x._as_int()
         if isinstance(x, SymReal):
             return mk_int(x.g, z3.If(x.e >= 0, z3.ToInt(x.e), -z3.ToInt(-x.e)))
+        if isinstance(x, str) and not a and CURRENT["g"] is not None:
+            return CURRENT["g"].unsentinel(builtins.int(x))
         return builtins.int(x, *a)
 
     from_bytes = builtins.int.from_bytes
